@@ -15,3 +15,66 @@ Print Assumptions C09_gen_generate_a_indptr_safe.
 Example C09_gen_generate_a_indptr_trailing_empty :
   gen_generate_a_indptr 3 [0; 0] [7; 7; 7; 7] = ([0; 2; 2; 2], true).
 Proof. vm_compute. reflexivity. Qed.
+
+(* ---------------------------------------------------------------------------------------------
+   Tie lemmas (C09/TieGen2.v): the utilities.py kernels as they read NOW compute the functions of the
+   hand-written model C09/Model.v, and read/store only inside their arrays under CSR well-formedness.
+   Hence the theorems of C09/Props.v about the model transport to the current source of these kernels.
+   --------------------------------------------------------------------------------------------- *)
+From QE Require Import C09.Solve C09.Model C09.TieGen2.
+
+Theorem C09_tie_s_wise_max_argmax :
+  forall (T : Type) (NT : Num T) (aidx indptr : list nat) (vals : list (ext T)) (om : list (ext T)) (oa : list Z),
+  length oa = length om ->
+  fst (@gen_s_wise_max_argmax (ext T) (NumExt NT) (zs aidx) (zs indptr) vals om oa) =
+    (overlay (@fst (ext T) nat) om (s_wise_max_argmax aidx indptr vals (length om)),
+     overlay (fun p : ext T * nat => Z.of_nat (snd p)) oa (s_wise_max_argmax aidx indptr vals (length om))) /\
+  (((length om < length indptr)%nat /\
+    forall s, (s < length om)%nat ->
+      (getn indptr s <= getn indptr (S s) <= length vals)%nat /\ (getn indptr (S s) <= length aidx)%nat) ->
+   snd (@gen_s_wise_max_argmax (ext T) (NumExt NT) (zs aidx) (zs indptr) vals om oa) = true).
+Proof. exact (@gen_s_wise_max_argmax_tie). Qed.
+Print Assumptions C09_tie_s_wise_max_argmax.
+
+Theorem C09_tie_s_wise_max :
+  forall (T : Type) (NT : Num T) (aidx indptr : list nat) (vals : list (ext T)) (om : list (ext T)),
+  fst (@gen_s_wise_max (ext T) (NumExt NT) (zs aidx) (zs indptr) vals om) =
+    overlay (fun x : ext T => x) om (s_wise_max aidx indptr vals (length om)) /\
+  ((length om < length indptr)%nat ->
+   (forall s, (s < length om)%nat -> (getn indptr s <= getn indptr (S s) <= length vals)%nat) ->
+   snd (@gen_s_wise_max (ext T) (NumExt NT) (zs aidx) (zs indptr) vals om) = true).
+Proof. exact (@gen_s_wise_max_tie). Qed.
+Print Assumptions C09_tie_s_wise_max.
+
+Theorem C09_tie_find_indices :
+  forall (aidx indptr sigma : list nat) (out : list Z),
+  length out = length sigma ->
+  fst (gen_find_indices (zs aidx) (zs indptr) (zs sigma) out) =
+    overlay Z.of_nat out (find_indices aidx indptr (length sigma) sigma) /\
+  ((length sigma < length indptr)%nat ->
+   (forall s, (s < length sigma)%nat -> (getn indptr s <= getn indptr (S s) <= length aidx)%nat) ->
+   snd (gen_find_indices (zs aidx) (zs indptr) (zs sigma) out) = true).
+Proof. exact gen_find_indices_tie. Qed.
+Print Assumptions C09_tie_find_indices.
+
+Theorem C09_tie_has_sorted_sa_indices :
+  forall (s a : list nat), length a = length s ->
+  gen_has_sorted_sa_indices (zs s) (zs a) = (has_sorted_sa_indices s a, true).
+Proof. exact gen_has_sorted_sa_indices_tie. Qed.
+Print Assumptions C09_tie_has_sorted_sa_indices.
+
+Theorem C09_tie_generate_a_indptr :
+  forall (sidx : list nat) (n : nat) (out : list Z) p,
+  length out = S n -> generate_a_indptr n sidx = RVal p ->
+  fst (gen_generate_a_indptr (Z.of_nat n) (zs sidx) out) = zs p.
+Proof. exact gen_generate_a_indptr_tie. Qed.
+Print Assumptions C09_tie_generate_a_indptr.
+
+(* non-vacuity: Puterman's example with a tie and a -inf pair; states 0 (3 pairs) and 1 (2 pairs) *)
+Example C09_tie_example :
+  @gen_s_wise_max_argmax (ext Z) (NumExt NumZ) [0;1;2;0;1] [0;3;5]
+     [Fin 5; Fin 10; Fin 10; NegInf; Fin (-1)] [NegInf; NegInf] [7;7]
+  = ([Fin 10; Fin (-1)], [1; 1], true)
+  /\ gen_find_indices [0;1;2;0;1] [0;3;5] [2;0] [9;9] = ([2;3], true)
+  /\ gen_has_sorted_sa_indices [0;0;0;1;1] [0;1;2;0;1] = (true, true).
+Proof. vm_compute. repeat split. Qed.
